@@ -23,7 +23,9 @@ def make(rng, stale=False, name='main.sed'):
                 w = _word(rng)
                 words[(mac, star, l)] = w
                 known.add((mac, star, l))
-                sed.append('s/\\%s%s{%s}/%s\\\\nobreakspace \\\\textup {(\\\\ref {%s})}/g' % (mac, '\\*' if star else '', l, w, l))
+                # (the text between name and number may hold tokens longer than one character: a run of blanks, a dash)
+                join = rng.choice(['\\\\nobreakspace ', '\\\\nobreakspace ', '        ', ' -- ', '            '])
+                sed.append('s/\\%s%s{%s}/%s%s\\\\textup {(\\\\ref {%s})}/g' % (mac, '\\*' if star else '', l, w, join, l))
     for mac in ('\\crefrange', '\\Crefrange'):
         for a in labs:
             for b in labs:
@@ -52,8 +54,11 @@ def make(rng, stale=False, name='main.sed'):
         parts.append(call); pos += len(call)
         sep = rng.choice([' ', '. ', '\n'])
         parts.append(sep); pos += len(sep)
-    tail = _word(rng) + rng.choice(['', '\n'])
-    parts.append(tail)
+    if rng.random() < 0.35:
+        parts.pop()                  # the last reference is the very end of the text
+    else:
+        tail = _word(rng) + rng.choice(['', '\n'])
+        parts.append(tail)
     return {'src': ''.join(parts), 'files': {name: '\n'.join(sed) + '\n'}, 'opts': {'lang': rng.choice(['en', 'de'])},
             'multi': False, 'kind': 'cref', 'words': None, 'uses': uses}
 
